@@ -253,7 +253,7 @@ PROPS = {
         "title": "a serde round trip at any point is invisible",
         "mc": [MC_MERGE],
         "replay": [gen_h("hist", 2, depth=("3", "4")), gen_h("hist", 1), gen_q("big", "E0,E5", maxlen=("7", "8")), gen_q("small", "E0"), gen_mm("hist", depth=("3", "4")), gen_pair("Weighted", "hist", "E0:W0,E5:W2", depth=("3", "4")), gen_pair("Covariance", "hist", "E0:E0,E3:E5", depth=("3", "4")), gen_hist(ALLM, "E0,E3,E5", depth=("5", "6"), slots=("{1}", "{1}")), gen_hist(ALLM, "E0,E5")],
-        "trace": [TR_Q],
+        "trace": [TR_Q, TR_MM],
         "direct": [{"cmd": "direct", "family": "histserde", "args": {"reps": ("20", "200")}}],
         "rule": "every history with checkpoints at every position; two real executions (with / without the JSON round trip) "
                 "compared bit for bit on every accessor",
@@ -261,16 +261,16 @@ PROPS = {
         "assumptions": ["serde_json with float_roundtrip is lossless for finite f64"],
     },
     "C08": {
-        "level_text": 'Weighted.tla (West update, weighted merge, embedded variance): WeightedIsDef, ErrorIsDef, ZeroWeightInvisible, EffectiveLenRange model-checked; every (value, weight) sequence / chunking / merge tree replayed on both weighted types incl. very unequal weights',
+        "level_text": 'Weighted.tla (West update, weighted merge, embedded variance): WeightedIsDef, ErrorIsDef, ZeroWeightInvisible, EffectiveLenRange model-checked; every (value, weight) sequence / chunking / merge tree replayed on both weighted types incl. very unequal weights (1 : 4096 uniformly scaled, and 2^-19 : 2^19 inside one stream under the weight map WX, whose expected values come from the harness evaluation of the specification definitions, cross-checked against the specification on every generated line)',
         "technique": 'TLC model checking of Weighted.tla + replay of every generated history',
         "title": "weighted mean and its error equal the exact weighted statistics",
         "mc": [MC_W, MC_W1, MC_WW],
-        "replay": [GEN_INGEST, gen_pair("Weighted", "seq", WE, maxlen=("4", "5")),
-                   gen_pair("Weighted", "tree", "E0:W0,E3:W1,E5:W2", maxlen=("3", "4")),
-                   gen_pair("Weighted", "hist", "E0:W0,E5:W2", depth=("3", "4")),
-                   gen_pair("Weighted", "seq", "E0:W0,E3:W1", maxlen=("5", "6"), wide=True),
+        "replay": [GEN_INGEST, gen_pair("Weighted", "seq", WE + ",E0:WX,E5:WX", maxlen=("4", "5")),
+                   gen_pair("Weighted", "tree", "E0:W0,E3:W1,E5:W2,E0:WX", maxlen=("3", "4")),
+                   gen_pair("Weighted", "hist", "E0:W0,E5:W2,E0:WX", depth=("3", "4")),
+                   gen_pair("Weighted", "seq", "E0:W0,E3:W1,E0:WX", maxlen=("5", "6"), wide=True),
                    gen_pair("Weighted", "tree", "E0:W0,E5:W2", maxlen=("4", "5"), wide=True),
-                   gen_pair("Weighted", "hist", "E0:W0", maxlen="3", depth=("4", "5"), wide=True)],
+                   gen_pair("Weighted", "hist", "E0:W0,E0:WX", maxlen="3", depth=("4", "5"), wide=True)],
         "rule": "every sequence of (value, weight) pairs over {-1,0,2} x {0,1,3} up to the length bound (zero weights at every "
                 "position, first included), every chunking into <= 3 chunks and merge tree, arbitrary histories; "
                 "WeightedMean and WeightedMeanWithError; value embeddings x weight scales 2^-19, 1, 2^18; the same again over "
@@ -294,7 +294,7 @@ PROPS = {
         "assumptions": ["as C01"],
     },
     "C14": {
-        "level_text": 'MinMax.tla over tokens incl. +-inf, +-0, NaN: ExtremeIsDef (function of the non-NaN multiset), FromValueIsAdd; every sequence/chunking/merge tree/history replayed, all ingestion paths; long random histories (integers to 10^6, +-inf, -0.0, NaN; add/from_value/collect/extend/merge/clone/serde over six objects) recorded from the real code and validated by TLC against Trace_MinMax.tla, which asserts the definition after every event',
+        "level_text": 'MinMax.tla over tokens incl. +-inf, +-0, NaN: ExtremeIsDef (function of the non-NaN multiset), FromValueIsAdd; every sequence/chunking/merge tree/history replayed, all ingestion paths; long random histories (integers to 10^6, +-inf, -0.0, NaN; add/from_value/collect/extend/merge/clone and the stuttering checkpoint (JSON round trip) over six objects) recorded from the real code and validated by TLC against Trace_MinMax.tla, which asserts the definition after every event',
         "technique": 'TLC model checking of MinMax.tla + exhaustive replay + TLC trace validation (Trace_MinMax.tla)',
         "title": "Min and Max return the exact extreme of everything seen, in any order",
         "mc": [MC_MM],
